@@ -721,6 +721,14 @@ class C17(Prop):
             try:
                 if util == "function":
                     sys.last_exc = exc
+                    # an older, unrelated exception is still recorded under the pre-3.12 names (what an interactive
+                    # interpreter leaves behind): the exception to save is the one `sys.last_exc` names
+                    try:
+                        raise KeyError("stale exception recorded earlier")
+                    except KeyError as stale:
+                        holder["stale_saved"] = [getattr(sys, n, None) for n in ("last_value", "last_type", "last_traceback")]
+                        holder["stale_had"] = [hasattr(sys, n) for n in ("last_value", "last_type", "last_traceback")]
+                        sys.last_value, sys.last_type, sys.last_traceback = stale, type(stale), stale.__traceback__
                     pyflyby.saveframe(filename=out, frames=case["frames"], variables=case["variables"],
                                       exclude_variables=case["exclude_variables"])
                 else:
@@ -734,6 +742,12 @@ class C17(Prop):
                 return dict(kind=classify_error(e), type=type(e).__name__, msg=str(e)[:160])
         finally:
             holder["umask_after"] = os.umask(old)
+            if "stale_saved" in holder:
+                for n, v, had in zip(("last_value", "last_type", "last_traceback"), holder.pop("stale_saved"), holder.pop("stale_had")):
+                    if had:
+                        setattr(sys, n, v)
+                    elif hasattr(sys, n):
+                        delattr(sys, n)
 
     def _run_bin(self, case, root, out, holder):
         """bin/saveframe executed in this process (runpy) on a user script; the exception object it hands to the
